@@ -6,7 +6,7 @@ import importlib
 import sys
 import types
 
-REPO = "/repo"
+from .engine import REPO  # noqa: E402
 _SAVED = {}
 _HTA = {}
 
